@@ -764,6 +764,13 @@ func (p *Parser) advance() {
 	p.currentPos++
 	if p.currentPos < len(p.tokens) {
 		p.currentToken = p.tokens[p.currentPos]
+	} else if p.currentPos > len(p.tokens) {
+		// A token slice that does not end in an EOF token: the first step past
+		// the end keeps the last token (callers and tests rely on that), but
+		// from the second step on the parser sees end of input. Without this,
+		// loops such as "left * right * ..." re-read the stale token and never
+		// terminate.
+		p.currentToken = token.Token{Type: models.TokenTypeEOF}
 	}
 }
 
